@@ -22,6 +22,11 @@ CHECKS = {
          'Every accepted step and every call history of every run is checked for alignment, finiteness, ranges, monotone time and exact end time; for fixed workloads every backend-call index receives a single "no result" fault and a burst of three; seeded sequences add mixed rates and bursts, real-backend runs exercise kawin.thermo\'s own fallback.',
          'Faults are injected only after model.setup() (transient failures of a running model); binary "unstable" sentinels and driving-force failures are probed informationally only; conservation is not asserted under faults. Known findings: pycalphad ZeroDivisionError escaping local_equilibrium; total fraction > 1 when one phase is clamped at 1.',
          'DESIGN.md 4/C03'),
+ 'C04': ('exploration', 1200, 7200,
+         'deterministic simulation: real diffusion models under seeded profile/mesh/boundary-condition/temperature/solve-call schedules with a flux tap, an iterator wrapper and a pre-clip state tap; flux-balance ledger per step',
+         'Every step of every run: mesh-sum change vs dt * sum_s w_s (J_left - J_right)/dz from the tapped boundary fluxes, boundary flux per condition type, fixed-composition nodes bitwise constant across steps and solve calls, bounds, call seams, recorded history; cumulative drift of closed systems over all calls.',
+         'Clip steps exempt (counted); runs ended by the model\'s own validation or a backend exception are checked up to that point (crash freedom is not C04). Synthetic-provider runs say nothing about kawin.thermo.',
+         'DESIGN.md 4/C04'),
  'C05': ('exploration', 900, 3600,
          'deterministic simulation: seeded adversarial plug-in models (dt proposals, stop requests, state layouts, coupler mixes) driving the real DESolver; contract oracle on the accepted-time history',
          'Seeded search over adversarial model behaviour and solve-call schedules; every accepted time, step size, stop and callback state structure is checked against the stated contract. Sampling, not enumeration.',
